@@ -61,7 +61,9 @@ Proof.
   induction ms as [|m r IH]; intro H; [reflexivity|].
   cbn [forallb] in H. apply andb_prop in H. destruct H as [H1 H2].
   cbn [zip_check]. rewrite !Z.eqb_refl. cbn [negb andb].
-  rewrite Bool.andb_false_r. rewrite (tid_assignable_refl tc _ H1). cbn [bind]. now apply IH.
+  rewrite Bool.andb_false_r.
+  destruct (sm_optional m); cbn [Bool.eqb negb];
+    rewrite (tid_assignable_refl tc _ H1); cbn [bind]; now apply IH.
 Qed.
 
 Lemma has_id_in : forall ms m, In m ms -> has_id ms (sm_id m) = true.
@@ -187,6 +189,7 @@ Proof.
   cbn [zip_check] in H. cbn [length Nat.min firstn].
   destruct (Z.eqb_spec (sm_id m1) (sm_id m2)) as [Hid|]; cbn [negb] in H; [|discriminate].
   destruct (negb (tc_ign_names tc) && negb (sm_name m1 =? sm_name m2)); [discriminate|].
+  destruct (negb (Bool.eqb (sm_optional m1) (sm_optional m2))); [discriminate|].
   destruct (tid_assignable tc (sm_tid m1) (sm_tid m2)) as [[|]| |] eqn:Ht; cbn [bind] in H; try discriminate.
   constructor; [now split|]. now apply IH.
 Qed.
